@@ -223,9 +223,9 @@ func instrumentFile(p *packages.Package, f *ast.File, fe *fileEdits, rel string)
 	}
 	text := func(n ast.Node) string { return string(fe.src[off(n.Pos()):off(n.End())]) }
 
-	importsTime, importsSync := false, false
+	importsTime, importsSync, importsMaps := false, false, false
 	for _, im := range f.Imports {
-		if im.Name != nil && im.Name.Name != "time" && im.Name.Name != "sync" {
+		if im.Name != nil && im.Name.Name != "time" && im.Name.Name != "sync" && im.Name.Name != "maps" {
 			continue
 		}
 		switch strings.Trim(im.Path.Value, `"`) {
@@ -233,6 +233,8 @@ func instrumentFile(p *packages.Package, f *ast.File, fe *fileEdits, rel string)
 			importsTime = true
 		case "sync":
 			importsSync = true
+		case "maps":
+			importsMaps = true
 		}
 	}
 
@@ -385,6 +387,18 @@ func instrumentFile(p *packages.Package, f *ast.File, fe *fileEdits, rel string)
 			}
 		case *ast.CallExpr:
 			if sel, ok := x.Fun.(*ast.SelectorExpr); ok {
+				// maps.Keys(m), maps.Values(m), maps.All(m) (package maps of the standard library): iterators over a
+				// map in Go's random order -> simrt.MapKeys / MapValues / MapSeq under the run's map-order policy
+				if fn, ok := info.Uses[sel.Sel].(*types.Func); ok && fn.Pkg() != nil && fn.Pkg().Path() == "maps" && len(x.Args) == 1 {
+					if _, isPkg := info.Uses[identOf(sel.X)].(*types.PkgName); isPkg {
+						repl := map[string]string{"Keys": "simrt.MapKeys", "Values": "simrt.MapValues", "All": "simrt.MapSeq"}[fn.Name()]
+						if repl != "" {
+							id := newSite("maps."+fn.Name(), x.Pos(), curFunc(), text(x))
+							fe.add(off(x.Fun.Pos()), off(x.Fun.End())-off(x.Fun.Pos()), repl)
+							fe.add(off(x.Args[0].Pos()), 0, fmt.Sprintf("%d, ", id))
+						}
+					}
+				}
 				if s := info.Selections[sel]; s != nil && s.Kind() == types.MethodVal {
 					if fn, ok := s.Obj().(*types.Func); ok && fn.Pkg() != nil && fn.Pkg().Path() == "reflect" && fn.Name() == "MapKeys" {
 						id := newSite("mapkeys", x.Pos(), curFunc(), text(x))
@@ -461,6 +475,9 @@ func instrumentFile(p *packages.Package, f *ast.File, fe *fileEdits, rel string)
 		}
 		if importsSync {
 			keep.WriteString("var _ sync.Locker\n")
+		}
+		if importsMaps {
+			keep.WriteString("var _ = maps.Clone[map[int]int]\n")
 		}
 		fe.add(len(fe.src), 0, keep.String())
 	}
